@@ -15,7 +15,7 @@ StepCalls(e) ==
      THEN Report(e.case, {"recorder_left_the_display_scale_domain"}, [coords |-> e.coords, sizes |-> e.sizes, w |-> e.w])
      ELSE \A j \in 1..Len(e.calls) :
             LET c == e.calls[j] IN
-            Report(e.case, CallFails(c), [api |-> c.api, outcome |-> c.outcome, msg |-> c.msg, loc |-> c.loc, allocs |-> c.allocs])
+            Report(e.case, CallFails(c), [api |-> c.api, outcome |-> c.outcome, msg |-> c.msg, loc |-> c.loc, allocs |-> c.allocs, stack |-> c.stack])
 Next == /\ l <= NRec
         /\ LET e == Rec[l] IN StepCase(e) \/ StepCalls(e)
         /\ l' = l + 1
